@@ -8,6 +8,7 @@ import (
 	"io"
 	"runtime"
 	"strings"
+	"time"
 
 	webp "github.com/deepteams/webp"
 	"github.com/deepteams/webp/animation"
@@ -724,7 +725,7 @@ func anyNonOpaque(img image.Image) bool {
 
 // suiteC16: header queries agree with a full decode; container views agree with one another.
 func suiteC16(rep *Report) error {
-	rep.Rule = "inputs: encoder / muxer / animation-encoder outputs (seed corpus, plus fresh encodes: threshold-crossing files - widths 1023..4097 x heights 1..4 as lossy, lossy+alpha, lossless, animation, and pictures on the numeric thresholds of thresholds.go -, one non-opaque pixel at raster index 0 / 1 / each of the last 8 positions over sizes with pixel count mod 4 = 0..3, lossless with/without metadata and lossy, and random pictures over all alpha classes), muxer-assembled extended stills and animations (AddFrame with ALPH-prefixed data; animations whose first frame is smaller than the canvas and / or at a non-zero offset), hand-assembled well-formed containers (VP8X with/without ALPH incl. zero-length, odd/empty/unknown chunks, metadata before/after, flags over/under-stating; animations of 1..3 frames of different sizes and codecs at offsets 0/2/4 on a canvas equal to or larger than their extent), every ALPH plane drawn from {all 255, all 0, all 254, one uniform value, 255 except one pixel, noise, gradient} x {raw, VP8L-compressed} x filter 0..3 x pre-processing bits (written by the package's own alpha encoder), and mutations that Decode still accepts; for each accepted still: DecodeConfig, GetFeatures, image.DecodeConfig vs the decoded image (size, colour model, format name, alpha flag for package-written files); for well-formed files: GetFeatures / DecodeConfig / Demuxer / animation.DecodeBytes agree on canvas, animation flag, frame count, loop count - for animations DecodeConfig and image.DecodeConfig must report the VP8X canvas, not the first frame; non-trivial = Decode accepted or the file is animated"
+	rep.Rule = "inputs: encoder / muxer / animation-encoder outputs (seed corpus, plus fresh encodes: threshold-crossing files - widths 1023..4097 x heights 1..4 as lossy, lossy+alpha, lossless, animation, and pictures on the numeric thresholds of thresholds.go -, one non-opaque pixel at raster index 0 / 1 / each of the last 8 positions over sizes with pixel count mod 4 = 0..3, lossless with/without metadata and lossy, and random pictures over all alpha classes), muxer-assembled extended stills and animations (AddFrame with ALPH-prefixed data; animations whose first frame is smaller than the canvas and / or at a non-zero offset), muxer- and animation-encoder-assembled (Set*/AddFrame/Assemble, Set*/AddRawFrame/Close) stills and animations of 1..3 frames carrying ICC / EXIF / XMP blobs of odd length 1,3,5,7,9 alone and combined (RIFF size field = file size, all views accept), hand-assembled VP8X stills with a stray ANIM chunk (loop count != 0) before / after the image chunk or last (every reader: not animated, 1 frame, loop count 0), hand-assembled well-formed containers (VP8X with/without ALPH incl. zero-length, odd/empty/unknown chunks, metadata before/after, flags over/under-stating; animations of 1..3 frames of different sizes and codecs at offsets 0/2/4 on a canvas equal to or larger than their extent), every ALPH plane drawn from {all 255, all 0, all 254, one uniform value, 255 except one pixel, noise, gradient} x {raw, VP8L-compressed} x filter 0..3 x pre-processing bits (written by the package's own alpha encoder), and mutations that Decode still accepts; for each accepted still: DecodeConfig, GetFeatures, image.DecodeConfig vs the decoded image (size, colour model, format name, alpha flag for package-written files); for well-formed files: GetFeatures / DecodeConfig / Demuxer / animation.DecodeBytes agree on canvas, animation flag, frame count, loop count - for animations DecodeConfig and image.DecodeConfig must report the VP8X canvas, not the first frame; non-trivial = Decode accepted or the file is animated"
 	inputs, seeds := containerInputs(rep.Seed, rep.Tier)
 	_ = seeds
 	// freshly encoded files (package-written, so the alpha flag must cover every non-opaque decoded
@@ -836,6 +837,11 @@ func suiteC16(rep *Report) error {
 				rep.Count("mux-fresh:assemble-error")
 			}
 		}
+		// muxer- and animation-encoder-assembled files carrying ICC / EXIF / XMP blobs of ODD length (1, 3, 5, 7, 9
+		// bytes; now and then an even one), alone and combined, stills and animations of 1..3 frames: every chunk is
+		// padded to an even extent, so the RIFF size field, the chunk walk of the strict parser and the walk of the
+		// demuxer must all account for the pad byte - including the one after the LAST chunk of the file
+		fresh = append(fresh, e2eOddMetaFiles(rep)...)
 		inputs = append(fresh, inputs...)
 	}
 	accepted := 0
@@ -920,7 +926,208 @@ func suiteC16(rep *Report) error {
 		rep.Eval(true, in.data)
 		rep.Count("layout:" + in.kind)
 	}
+	// VP8X stills (animation flag clear) with a stray ANIM chunk (loop count != 0): the chunk must be ignored by
+	// every reader - not animated, one frame, loop count 0 everywhere
+	for _, in := range e2eStrayAnimStills(rep) {
+		viewsAgree(rep, in.data, in.kind)
+		e2eStillIsStill(rep, in.data, in.kind)
+		rep.Eval(true, in.data)
+		rep.Count("layout:" + in.kind)
+	}
 	return nil
+}
+
+// e2eRIFFSizeExact: the RIFF size field of a package-written file covers the file exactly (padding included).
+func e2eRIFFSizeExact(rep *Report, data []byte, kind string) {
+	if len(data) < 12 {
+		return
+	}
+	n := int(data[4]) | int(data[5])<<8 | int(data[6])<<16 | int(data[7])<<24
+	if n+8 != len(data) || len(data)%2 != 0 {
+		rep.Add(Finding{Kind: "property", Property: "C16", Signature: "views:riff-size-vs-file",
+			Detail: fmt.Sprintf("package-written file of %d bytes announces RIFF size %d (+8 = %d) (%s)", len(data), n, n+8, kind),
+			Input:  map[string]any{"op": "c16", "hex": hx(data)}})
+	}
+}
+
+// e2eOddMetaFiles: mux.Muxer (Set*/AddFrame/Assemble) and animation.AnimEncoder (Set*/AddRawFrame/Close) outputs
+// with odd-length metadata blobs. which: bit 0 ICC, bit 1 EXIF, bit 2 XMP (all 7 combinations in turn).
+func e2eOddMetaFiles(rep *Report) []cInput {
+	n := 42
+	if rep.Tier == "thorough" {
+		n = 840
+	}
+	var out []cInput
+	for i := 0; i < n; i++ {
+		r := NewRNG(rep.Seed, 0x1640000+uint64(i))
+		which := 1 + i%7
+		blob := func() []byte {
+			l := []int{1, 3, 5, 7, 9}[r.Intn(5)]
+			if r.Chance(1, 8) {
+				l = 2 + 2*r.Intn(4)
+			}
+			rep.Count(fmt.Sprintf("odd-meta:len%%2=%d", l%2))
+			return r.Bytes(l)
+		}
+		var icc, exif, xmp []byte
+		if which&1 != 0 {
+			icc = blob()
+		}
+		if which&2 != 0 {
+			exif = blob()
+		}
+		if which&4 != 0 {
+			xmp = blob()
+		}
+		sz := [][2]int{{1, 1}, {3, 2}, {8, 8}, {13, 7}, {16, 16}, {17, 9}}[r.Intn(6)]
+		w, h := sz[0], sz[1]
+		nf := 1 + (i/7)%3
+		one := func() []byte {
+			switch r.Intn(3) {
+			case 0:
+				return rawFrame(r, w, h, true, []int{AlphaNone, AlphaBinary}[r.Intn(2)])
+			case 1:
+				return rawFrame(r, w, h, false, AlphaNone)
+			}
+			a, _ := e2eAlphPayload(r, w, h, r.Intn(e2eNumPlaneClasses), r.Intn(e2eNumAlphEncodings))
+			return alphPrefixed(a, rawFrame(r, w, h, false, AlphaNone))
+		}
+		var buf bytes.Buffer
+		var err error
+		tag := ""
+		if i%2 == 0 {
+			tag = "muxer"
+			m := mux.NewMuxer()
+			if icc != nil {
+				m.SetICCProfile(icc)
+			}
+			if exif != nil {
+				m.SetEXIF(exif)
+			}
+			if xmp != nil {
+				m.SetXMP(xmp)
+			}
+			for k := 0; k < nf; k++ {
+				if nf == 1 {
+					_ = m.AddFrame(one(), nil)
+				} else {
+					_ = m.AddFrame(one(), &mux.FrameOptions{Duration: 20 + k, BlendMode: mux.BlendMode(r.Intn(2)), DisposeMode: mux.DisposeMode(r.Intn(2))})
+				}
+			}
+			if nf > 1 {
+				m.SetLoopCount(r.Intn(4))
+			}
+			err = m.Assemble(&buf)
+		} else {
+			tag = "animenc"
+			e := animation.NewEncoder(&buf, w, h, &animation.EncodeOptions{LoopCount: r.Intn(4)})
+			if e == nil {
+				continue
+			}
+			if icc != nil {
+				e.SetICCProfile(icc)
+			}
+			if exif != nil {
+				e.SetEXIF(exif)
+			}
+			if xmp != nil {
+				e.SetXMP(xmp)
+			}
+			for k := 0; k < nf; k++ {
+				_ = e.AddRawFrame(one(), time.Duration(20+k)*time.Millisecond, 0, 0, animation.BlendMethod(r.Intn(2)), animation.DisposeMethod(r.Intn(2)))
+			}
+			err = e.Close()
+		}
+		if err != nil {
+			rep.Count("odd-meta:assemble-error:" + tag)
+			continue
+		}
+		data := append([]byte{}, buf.Bytes()...)
+		rep.Count(fmt.Sprintf("odd-meta:%s:frames=%d", tag, nf))
+		rep.Count(fmt.Sprintf("odd-meta:icc=%v,exif=%v,xmp=%v", icc != nil, exif != nil, xmp != nil))
+		e2eRIFFSizeExact(rep, data, "mux-fresh")
+		out = append(out, cInput{data, "mux-fresh"})
+	}
+	return out
+}
+
+// e2eStrayAnimStills: hand-assembled VP8X stills whose animation flag is clear but which carry an ANIM chunk
+// (6 bytes or longer, loop count 1..65535, random background colour) before or after the image chunk(s).
+func e2eStrayAnimStills(rep *Report) []cInput {
+	n := 24
+	if rep.Tier == "thorough" {
+		n = 400
+	}
+	var out []cInput
+	for i := 0; i < n; i++ {
+		r := NewRNG(rep.Seed, 0x1650000+uint64(i))
+		sz := [][2]int{{1, 1}, {3, 2}, {8, 8}, {13, 7}, {16, 16}}[r.Intn(5)]
+		w, h := sz[0], sz[1]
+		flags := byte(0)
+		var imgc []byte
+		switch i % 3 {
+		case 0:
+			imgc = chunk("VP8L", rawFrame(r, w, h, true, AlphaNone))
+		case 1:
+			imgc = chunk("VP8 ", rawFrame(r, w, h, false, AlphaNone))
+		default:
+			a, _ := e2eAlphPayload(r, w, h, r.Intn(e2eNumPlaneClasses), r.Intn(e2eNumAlphEncodings))
+			imgc = append(chunk("ALPH", a), chunk("VP8 ", rawFrame(r, w, h, false, AlphaNone))...)
+			flags |= 0x10
+		}
+		loop := 1 + r.Intn(65535)
+		if r.Chance(1, 3) {
+			loop = 1 + r.Intn(9)
+		}
+		ap := []byte{byte(r.Next()), byte(r.Next()), byte(r.Next()), byte(r.Next()), byte(loop), byte(loop >> 8)}
+		if r.Chance(1, 5) {
+			ap = append(ap, r.Bytes(1+r.Intn(3))...)
+		}
+		anim := chunk("ANIM", ap)
+		exif := r.Chance(1, 3)
+		if exif {
+			flags |= 0x08
+		}
+		body := chunk("VP8X", vp8xPayload(flags, w, h))
+		pos := (i / 3) % 3
+		if pos == 0 {
+			body = append(body, anim...)
+		}
+		body = append(body, imgc...)
+		if pos == 1 {
+			body = append(body, anim...)
+		}
+		if exif {
+			body = append(body, chunk("EXIF", r.Bytes(1+r.Intn(7)))...)
+		}
+		if pos == 2 {
+			body = append(body, anim...)
+		}
+		out = append(out, cInput{riff(body), fmt.Sprintf("still+stray-anim:%s", []string{"before-image", "after-image", "last"}[pos])})
+	}
+	return out
+}
+
+// e2eStillIsStill: a file without the VP8X animation flag is a still for every reader: Decode accepts it,
+// GetFeatures / Demuxer say not animated, one frame, loop count 0; animation.DecodeBytes gives one frame, loop 0.
+func e2eStillIsStill(rep *Report, data []byte, kind string) {
+	add := func(sig, detail string) {
+		rep.Add(Finding{Kind: "property", Property: "C16", Signature: "views:" + sig, Detail: fmt.Sprintf("%s (%s)", detail, kind),
+			Input: map[string]any{"op": "c16", "hex": hx(data)}})
+	}
+	ft, ferr := webp.GetFeatures(bytes.NewReader(data))
+	d, derr := mux.NewDemuxer(data)
+	a, aerr := animation.DecodeBytes(data)
+	_, xerr := webp.Decode(bytes.NewReader(data))
+	if ferr != nil || derr != nil || aerr != nil || xerr != nil {
+		add("still-rejected", fmt.Sprintf("still with a stray ANIM chunk: GetFeatures err=%v, NewDemuxer err=%v, animation.DecodeBytes err=%v, Decode err=%v", ferr, derr, aerr, xerr))
+		return
+	}
+	if ft.HasAnimation || d.GetFeatures().HasAnimation || ft.FrameCount != 1 || d.NumFrames() != 1 || len(a.Frames) != 1 ||
+		ft.LoopCount != 0 || d.LoopCount() != 0 || a.LoopCount != 0 {
+		add("still-not-still", fmt.Sprintf("animation flag clear, stray ANIM chunk: GetFeatures anim=%v frames=%d loop=%d; demuxer anim=%v frames=%d loop=%d; animation.DecodeBytes frames=%d loop=%d",
+			ft.HasAnimation, ft.FrameCount, ft.LoopCount, d.GetFeatures().HasAnimation, d.NumFrames(), d.LoopCount(), len(a.Frames), a.LoopCount))
+	}
 }
 
 // viewsAgree compares GetFeatures, DecodeConfig, Demuxer and animation.DecodeBytes on one file.
